@@ -265,7 +265,11 @@ func runCase(caseIdx int, c *caseDesc, rng *rand.Rand) {
 		if run.Guard("C17/panic-in-Write", c, func() { werr = w.Write(ts, items) }) {
 			return
 		}
-		if werr != nil {
+		if werr != nil && uint64(ns) < latest {
+			// a batch older than the log's latest second is outside the writer's domain: it must not be stored (checked
+			// below through the retained content), whether it is dropped silently or refused with an error
+			run.Count("stale_batches_refused_with_an_error", 1)
+		} else if werr != nil {
 			fail("write-error", fmt.Sprintf("write %d: %v", i, werr))
 			return
 		}
